@@ -50,6 +50,7 @@ def shards(tier):
 
 def required_counters(tier):
     return {
+        "question_axes.later_check_fails_after_binding": 200,
         "fail.with_tentative": 1000,
         "fail.array": 500,
         "fail.pytree": 300,
@@ -607,7 +608,42 @@ def scen_unbound_struct(rec, rng, single, variadic, state, args):
     judge(rec, desc, lambda: isinstance(value, ann), [n1], [], [], (), "pytree")
 
 
+def scen_question_axes(rec, rng, single, variadic, state, args):
+    """'?' axes of a structured PyTree: an EARLIER passing check has already bound the structure and some per-leaf
+    axes; a later check against the same structure name binds new per-leaf axes at the first leaves and then fails
+    (or raises) at a later leaf - nothing of it may stay"""
+    import jaxtyping
+
+    k = rng.choice((2, 3, 4))
+    sizes = [rng.choice((2, 3, 4)) for _ in range(k)]
+    form = rng.choice(("list", "dict", "tuple"))
+    mk = lambda arrs: list(arrs) if form == "list" else tuple(arrs) if form == "tuple" else {f"k{i}": a for i, a in enumerate(arrs)}
+    sname = rng.choice(("T", "Q"))
+    first = jaxtyping.PyTree[Ann("Float", "?n"), sname]
+    t1 = mk([real.np_array((s,)) for s in sizes])
+    if not isinstance(t1, first):
+        return
+    bad_at = rng.randrange(1, k)
+    how = rng.choice(("size", "dtype", "annot"))
+    spec2 = rng.choice(("?m ?n", "?n ?m", "*?w ?n", "?m ?n"))
+    rows = [rng.choice((1, 2, 5)) for _ in range(k)]
+    arrs = []
+    for i in range(k):
+        n_i = sizes[i] + (1 if (i == bad_at and how == "size") else 0)
+        shape = (rows[i], n_i) if spec2 != "?n ?m" else (n_i, rows[i])
+        arrs.append(real.np_array(shape, "int32" if (i == bad_at and how == "dtype") else "float32"))
+    if how == "annot":
+        spec2 = spec2 + " zz+1"
+        arrs = [real.np_array(tuple(a.shape) + (3,)) for a in arrs]
+    second = jaxtyping.PyTree[Ann("Float", spec2), sname]
+    t2 = mk(arrs)
+    desc = {"family": "question-axes", "state": state, "sizes": sizes, "spec2": spec2, "bad_leaf": bad_at, "how": how, "form": form}
+    rec.count("question_axes.later_check_fails_after_binding")
+    judge(rec, desc, lambda: isinstance(t2, second), [], [], [], {"?m"}, "pytree")
+
+
 SCENARIOS = (
+    (scen_question_axes, 8),
     (scen_array, 40),
     (scen_array_raise, 10),
     (scen_faulty_duck, 25),
